@@ -282,7 +282,8 @@ impl ConnDriver {
             } else {
                 toks.iter().map(|t| t.to_string()).collect::<Vec<_>>().join(",")
             };
-            let op = format!("conn recv {} {}", hx(&rest), ts);
+            // the first call carries the offer; later calls take the rest of it ("conn more")
+            let op = if first { format!("conn recv {} {}", hx(&rest), ts) } else { "conn more".to_string() };
             // make sure nothing stale is queued
             self.stream.0.borrow_mut().reads.clear();
             let (text, taken) = self.read_once(rec, RAct::Data(rest.clone(), fds), op);
